@@ -293,12 +293,32 @@ def run(ctx: Ctx) -> Report:
     bad["meanE"] += 1000
     if 0 not in tracecheck.validate(ctx, "trace/Trace_Eval.tla", [bad], "eval_selftest").rejected:
         raise Machinery("C19 self-test (d) failed")
+    # "independent episodes": one-step lottery episodes whose return names the start state (the table MDPs above are deterministic
+    # given the start state, and their start sets are small): the mean decodes into the multiset of start states
+    from .. import drive_identity as di
+    icases = [dict(E=24, cap=cap, det=det, seed=ctx.rng.randrange(2 ** 31)) for cap in (None, 3) for det in (True, False) for _ in range(ctx.pick(1, 4))]
+    its = [di.independent_episodes_case(c["E"], c["cap"], c["det"], c["seed"]) for c in icases]
+    iv = tracecheck.validate(ctx, "trace/Trace_Atoms.tla", its, "eval_independent")
+    rep.traces += len(its)
+    rep.parts["C2S_average_reward_independent_episodes"] = {"cases": [i["meta"] for i in its], "accepted": len(iv.accepted), "rejected": len(iv.rejected)}
+    for i, (l, clauses) in sorted(iv.rejected.items()):
+        rep.violations.append(Violation("C19:average_reward:" + "+".join(clauses), f"average_reward on one-step lottery episodes {its[i]['meta']}: {clauses}",
+                                        "eval_independent", icases[i]))
     rep.assumptions += ["statistics are exact in units of 1/4^8: traces are cut after 8 episode ends per environment",
                         "the reward fed to the statistics model is the environment's reward as computed by MDP.tla, not the buffer's"]
     return rep
 
 
 def replay(ctx: Ctx, driver: str, case: dict) -> Report:
+    if driver == "eval_independent":
+        from .. import drive_identity as di
+        rep = Report()
+        it = di.independent_episodes_case(case["E"], case["cap"], case["det"], case["seed"])
+        v = tracecheck.validate(ctx, "trace/Trace_Atoms.tla", [it], "replay")
+        rep.traces = 1
+        for i, (l, clauses) in v.rejected.items():
+            rep.violations.append(Violation("C19:average_reward:" + "+".join(clauses), str(it["meta"]), driver, case))
+        return rep
     rep = Report()
     if driver == "onpolicy":
         return ops.replay(ctx, "C19", case, only=is_stats)
